@@ -271,7 +271,7 @@ def run_impl(lines, extra_env=None):
 
 # commands whose answer is a function of the case line alone (no threads, no clocks): they are run a second time in a process
 # WITHOUT a tracing subscriber and must answer identically
-DETERMINISTIC_CMDS = ("DEC ", "DECS ", "ENC ", "RT ", "BKD ", "BKDR ", "CMP ", "CMPX ", "AST ", "RUN ", "RUNPAIR ")
+DETERMINISTIC_CMDS = ("DEC ", "DECS ", "ENC ", "RT ", "BKD ", "BKDR ", "BKDC ", "CMP ", "CMPX ", "AST ", "RUN ", "RUNPAIR ")
 
 
 def run_impl_untraced(lines):
